@@ -375,13 +375,125 @@ theorem byeCut_full (r : Bytes) : byeCut r r.length = r.length := by
   | zero => rfl
   | succ n => simp [byeCut, isBoundary, h]
 
+theorem isCont_range {c : UInt8} (h : isCont c = true) : 128 ≤ c.toNat ∧ c.toNat < 192 := by
+  simp only [isCont, Bool.and_eq_true, decide_eq_true_eq] at h; omega
+
+theorem second3_range {b c : UInt8} (h : second3 b c = true) : 128 ≤ c.toNat ∧ c.toNat < 192 := by
+  simp only [second3, Bool.or_eq_true, Bool.and_eq_true, decide_eq_true_eq] at h; omega
+
+theorem second4_range {b c : UInt8} (h : second4 b c = true) : 128 ≤ c.toNat ∧ c.toNat < 192 := by
+  simp only [second4, Bool.or_eq_true, Bool.and_eq_true, decide_eq_true_eq] at h; omega
+
+theorem isBoundary_tail {b : UInt8} {rest : Bytes} {k : Nat} (h : isBoundary (b :: rest) (k + 1) = true) :
+    isBoundary rest k = true := by
+  simp only [isBoundary, List.length_cons, List.getD_cons_succ, Bool.or_eq_true, decide_eq_true_eq] at h ⊢
+  omega
+
+/-- position `k+1` directly behind a lead byte whose next byte is a continuation byte is no boundary -/
+theorem not_boundary_cont {b c : UInt8} {r : Bytes} (hc : 128 ≤ c.toNat ∧ c.toNat < 192) :
+    isBoundary (b :: c :: r) 1 = false := by
+  simp [isBoundary]; omega
+
+/-- a prefix of well-formed UTF-8 that ends on a character boundary (in Rust's sense: index 0, the end,
+or a byte that is not a continuation byte) is well-formed UTF-8 -/
+theorem utf8Valid_take : ∀ (n : Nat) (bs : Bytes), bs.length = n → utf8Valid bs = true →
+    ∀ k, isBoundary bs k = true → utf8Valid (bs.take k) = true := by
+  intro n
+  induction n using Nat.strongRecOn with
+  | ind n ih =>
+    intro bs hn hv k hb
+    match bs, hn, k with
+    | [], _, _ => simp [utf8Valid]
+    | _ :: _, _, 0 => simp [utf8Valid]
+    | b :: rest, hn, k + 1 =>
+      simp only [List.length_cons] at hn
+      have hb1 := isBoundary_tail hb
+      unfold utf8Valid at hv
+      by_cases h1 : b.toNat < 128
+      · rw [if_pos h1] at hv
+        rw [List.take_succ_cons]; unfold utf8Valid; rw [if_pos h1]
+        exact ih rest.length (by omega) rest rfl hv k hb1
+      · rw [if_neg h1] at hv
+        by_cases h2 : 0xC2 ≤ b.toNat ∧ b.toNat ≤ 0xDF
+        · rw [if_pos h2] at hv
+          match rest, hn, hv, hb, hb1 with
+          | c :: r, hn, hv, hb, hb1 =>
+            simp only [Bool.and_eq_true] at hv
+            simp only [List.length_cons] at hn
+            match k, hb, hb1 with
+            | 0, hb, _ => rw [not_boundary_cont (isCont_range hv.1)] at hb; cases hb
+            | k + 1, _, hb1 =>
+              simp only [List.take_succ_cons]; unfold utf8Valid; rw [if_neg h1, if_pos h2]
+              simp only [hv.1, Bool.true_and]
+              exact ih r.length (by omega) r rfl hv.2 k (isBoundary_tail hb1)
+        · rw [if_neg h2] at hv
+          by_cases h3 : 0xE0 ≤ b.toNat ∧ b.toNat ≤ 0xEF
+          · rw [if_pos h3] at hv
+            match rest, hn, hv, hb, hb1 with
+            | c :: d :: r, hn, hv, hb, hb1 =>
+              simp only [Bool.and_eq_true] at hv
+              simp only [List.length_cons] at hn
+              match k, hb, hb1 with
+              | 0, hb, _ => rw [not_boundary_cont (second3_range hv.1.1)] at hb; cases hb
+              | 1, _, hb1 => rw [not_boundary_cont (isCont_range hv.1.2)] at hb1; cases hb1
+              | k + 2, _, hb1 =>
+                simp only [List.take_succ_cons]; unfold utf8Valid; rw [if_neg h1, if_neg h2, if_pos h3]
+                simp only [hv.1.1, hv.1.2, Bool.true_and]
+                exact ih r.length (by omega) r rfl hv.2 k (isBoundary_tail (isBoundary_tail hb1))
+          · rw [if_neg h3] at hv
+            by_cases h4 : 0xF0 ≤ b.toNat ∧ b.toNat ≤ 0xF4
+            · rw [if_pos h4] at hv
+              match rest, hn, hv, hb, hb1 with
+              | c :: d :: e :: r, hn, hv, hb, hb1 =>
+                simp only [Bool.and_eq_true] at hv
+                simp only [List.length_cons] at hn
+                match k, hb, hb1 with
+                | 0, hb, _ => rw [not_boundary_cont (second4_range hv.1.1.1)] at hb; cases hb
+                | 1, _, hb1 => rw [not_boundary_cont (isCont_range hv.1.1.2)] at hb1; cases hb1
+                | 2, _, hb1 =>
+                  have := isBoundary_tail hb1
+                  rw [not_boundary_cont (isCont_range hv.1.2)] at this; cases this
+                | k + 3, _, hb1 =>
+                  simp only [List.take_succ_cons]; unfold utf8Valid
+                  rw [if_neg h1, if_neg h2, if_neg h3, if_pos h4]
+                  simp only [hv.1.1.1, hv.1.1.2, hv.1.2, Bool.true_and]
+                  exact ih r.length (by omega) r rfl hv.2 k
+                    (isBoundary_tail (isBoundary_tail (isBoundary_tail hb1)))
+            · rw [if_neg h4] at hv; cases hv
+
+theorem byeCut_boundary (r : Bytes) : ∀ n, isBoundary r (byeCut r n) = true := by
+  intro n
+  induction n with
+  | zero => simp [byeCut, isBoundary]
+  | succ n ih =>
+    simp only [byeCut]
+    by_cases h : isBoundary r (n + 1) = true
+    · rw [if_pos h]; exact h
+    · rw [if_neg h]; exact ih
+
+/-- … and it is the LAST boundary not beyond `n` -/
+theorem byeCut_maximal (r : Bytes) : ∀ n j, byeCut r n < j → j ≤ n → isBoundary r j = false := by
+  intro n
+  induction n with
+  | zero => intro j h1 h2; omega
+  | succ n ih =>
+    intro j h1 h2
+    simp only [byeCut] at h1
+    by_cases h : isBoundary r (n + 1) = true
+    · rw [if_pos h] at h1; omega
+    · rw [if_neg h] at h1
+      by_cases hj : j = n + 1
+      · subst hj; simpa using h
+      · exact ih j h1 (by omega)
+
 /-- the reason a BYE written for `reason` decodes to: the longest prefix of at most 255 bytes that ends
-on a character boundary, read with `from_utf8_lossy` -/
+on a character boundary (`byeCut_boundary`, `byeCut_maximal`; well-formed UTF-8 again by `utf8Valid_take`) -/
 def byeCanonReason : Option Bytes → Option Bytes
   | none => none
-  | some r => some (lossy (r.take (byeCut r (min r.length c15ByeMaxReason))))
+  | some r => some (r.take (byeCut r (min r.length c15ByeMaxReason)))
 
-theorem parseBye_body (ss : List UInt32) (reason : Option Bytes) (z : Bytes) (hz : reason = none → z = []) :
+theorem parseBye_body (ss : List UInt32) (reason : Option Bytes) (z : Bytes) (hz : reason = none → z = [])
+    (hv : ∀ x, reason = some x → utf8Valid x = true) :
     parseBye ss.length (byeBody ss reason ++ z) = .ok (.bye ss (byeCanonReason reason)) := by
   unfold parseBye byeBody
   rw [if_neg (by simp; omega)]
@@ -391,14 +503,17 @@ theorem parseBye_body (ss : List UInt32) (reason : Option Bytes) (z : Bytes) (hz
   | some r =>
     simp only [List.cons_append, byeCanonReason]
     have hle := byeCut_le r (min r.length c15ByeMaxReason)
+    have hbd := byeCut_boundary r (min r.length c15ByeMaxReason)
     have h255 := c15ByeMaxReason_eq
-    generalize byeCut r (min r.length c15ByeMaxReason) = k at hle
+    generalize byeCut r (min r.length c15ByeMaxReason) = k at hle hbd
     have hk : k ≤ r.length := by omega
     have hn : (u8 k).toNat = k := by apply u8_toNat_lt; omega
     rw [hn, if_neg (by simp [List.length_take]; omega)]
     congr 3
     rw [List.take_append_of_le_length (by simp [List.length_take]; omega)]
-    simp [List.take_take]
+    have ht : List.take k (List.take k r) = List.take k r := by simp [List.take_take]
+    rw [ht]
+    exact lossy_of_valid _ _ rfl (utf8Valid_take _ r rfl (hv r rfl) k hbd)
 
 /-! ### SDES -/
 
@@ -523,21 +638,24 @@ theorem sdesBody_length_mod (cs : List SdesChunk) : (sdesBody [] cs).length % 4 
 
 /-- What `marshal_rtcp_packets` followed by `parse_rtcp_packets` does to a logical packet — for every
 value the marshaller accepts: the loss count saturates at 24-bit signed (RFC 3550 §6.4.1), a BYE reason
-is cut to whole characters within 255 bytes, a NACK list comes back as the packed pairs enumerate it, a
-REMB bitrate keeps its 18 most significant bits; every other field of every type is preserved. -/
+is cut to the longest prefix of whole characters within 255 bytes, a NACK list comes back as the packed
+pairs enumerate it, a REMB bitrate keeps its 18 most significant bits, a TWCC reference time is reduced
+modulo 2^24 (it is a wrapping 24-bit counter); every other field of every type is preserved. -/
 def canon : Rtcp → Rtcp
   | .sr s m l t p o bl => .sr s m l t p o (bl.map canonBlock)
   | .rr s bl => .rr s (bl.map canonBlock)
   | .bye ss r => .bye ss (byeCanonReason r)
   | .nack s m lost => .nack s m (unpackNack (packNack lost))
   | .remb s br ss => .remb s (rembCanon br) ss
+  | .twcc s m b c r f pl => .twcc s m b c (UInt32.ofNat (r.toNat % 16777216)) f pl
   | p => p
 
-/-- What the Rust types guarantee about a logical packet: `String`s are valid UTF-8 (RFC 3629 syntax,
-`utf8Valid`) and the REMB bitrate is a `u64`. Nothing else is assumed. -/
+/-- What the Rust types guarantee about a logical packet: `String`s (SDES texts, the BYE reason) are valid
+UTF-8 (RFC 3629 syntax, `utf8Valid`) and the REMB bitrate is a `u64`. Nothing else is assumed. -/
 def Dom : Rtcp → Prop
   | .sdes cs => ∀ c ∈ cs, ∀ i ∈ c.items, utf8Valid i.text = true
   | .remb _ br _ => br < 2 ^ 64
+  | .bye _ r => ∀ x, r = some x → utf8Valid x = true
   | _ => True
 
 theorem parseOne_sr (fmt : Nat) (b : Bytes) : parseOne c15RtcpSr fmt b = (parseSr fmt b).map some := by
@@ -705,7 +823,7 @@ theorem parse_marshalOne (p : Rtcp) (hd : Dom p) (bs : Bytes) (hm : marshalOne p
       have hmod : ss.length % 256 = ss.length := by omega
       rw [hmod]
       apply readsAs_of _ _ _ _ _ (by omega) hBy (fits_len hfit)
-      rw [parseOne_bye, padded, parseBye_body ss r _ ?_]; rfl
+      rw [parseOne_bye, padded, parseBye_body ss r _ ?_ hd]; rfl
       intro hr; subst hr
       have : (byeBody ss none).length % 4 = 0 := by
         simp only [byeBody, List.length_append, be32s_length, List.length_nil]; omega
@@ -746,31 +864,25 @@ theorem parse_marshalOne (p : Rtcp) (hd : Dom p) (bs : Bytes) (hm : marshalOne p
       rw [padded_of_aligned (by omega), parseOne_remb, parseRemb_body s br ss hd (by omega)]; rfl
   | twcc s m b c r f pl =>
     simp only [marshalOne] at hm
-    by_cases hr : r.toNat > 16777215
-    · rw [if_pos hr] at hm; cases hm
-    · rw [if_neg hr] at hm
-      unfold twccEmit at hm
-      cases hf : fits (twccPadded (twccBody s m b c r f pl)) with
-      | false => rw [hf] at hm; simp at hm
-      | true =>
-        rw [hf] at hm; simp only [if_true] at hm
-        injection hm with hm; subst hm
-        have hlen : (twccBody s m b c r f pl).length + 3 < 262144 := by
-          have h1 := fits_len hf
-          have h2 : (twccBody s m b c r f pl).length ≤ (twccPadded (twccBody s m b c r f pl)).length := by
-            unfold twccPadded
-            by_cases hz : pad4 (twccBody s m b c r f pl).length = 0
-            · simp [hz]
-            · simp [hz]
-          omega
-        unfold ReadsAs
-        rw [parseCompound_twccWire _ _ hlen, parseOne_twcc]
-        have := parseTwcc_body s m b c r f pl []
-        simp only [List.append_nil] at this
-        rw [this]
-        have hrr : UInt32.ofNat (r.toNat % 16777216) = r := by
-          rw [Nat.mod_eq_of_lt (by omega)]; simp
-        rw [hrr]; rfl
+    unfold twccEmit at hm
+    cases hf : fits (twccPadded (twccBody s m b c r f pl)) with
+    | false => rw [hf] at hm; simp at hm
+    | true =>
+      rw [hf] at hm; simp only [if_true] at hm
+      injection hm with hm; subst hm
+      have hlen : (twccBody s m b c r f pl).length + 3 < 262144 := by
+        have h1 := fits_len hf
+        have h2 : (twccBody s m b c r f pl).length ≤ (twccPadded (twccBody s m b c r f pl)).length := by
+          unfold twccPadded
+          by_cases hz : pad4 (twccBody s m b c r f pl).length = 0
+          · simp [hz]
+          · simp [hz]
+        omega
+      unfold ReadsAs
+      rw [parseCompound_twccWire _ _ hlen, parseOne_twcc]
+      have := parseTwcc_body s m b c r f pl []
+      simp only [List.append_nil] at this
+      rw [this]; rfl
 
 end RtcModel.C15
 
@@ -812,6 +924,7 @@ theorem dom_of_wf {p : Rtcp} (w : p.WF) : Dom p := by
   cases p with
   | sdes cs => exact fun c hc i hi => (w.2.1 c hc i hi).2.2
   | remb s br ss => exact w.2.1
+  | bye ss r => exact fun x hx => (w.2 x hx).2
   | _ => trivial
 
 end RtcModel.C15
@@ -918,14 +1031,16 @@ theorem canon_of_wf {p : Rtcp} (w : p.WF) : canon p = p := by
     | some x =>
       have := w.2 x rfl
       simp only [canon, byeCanonReason, c15ByeMaxReason_eq]
-      rw [Nat.min_eq_left this.1, byeCut_full, List.take_length, lossy_of_valid _ _ rfl this.2]
+      rw [Nat.min_eq_left this.1, byeCut_full, List.take_length]
   | pli s m => rfl
   | fir s rq => rfl
   | nack s m lost => simp only [canon, unpack_pack_asc lost w.2]
   | remb s br ss =>
     obtain ⟨_, hb, m, e, hm, rfl⟩ := w
     simp only [canon, rembCanon_wire m e (by omega) hb]
-  | twcc s m b c r f pl => rfl
+  | twcc s m b c r f pl =>
+    have : UInt32.ofNat (r.toNat % 16777216) = r := by rw [Nat.mod_eq_of_lt w.1]; simp
+    simp only [canon, this]
 
 theorem marshalOne_ok_of_wf {p : Rtcp} (w : p.WF) : ∃ bs, marshalOne p = .ok bs := by
   have hMax : c15RtcpMaxCount = 31 := c15RtcpMaxCount_val
@@ -996,7 +1111,7 @@ theorem marshalOne_ok_of_wf {p : Rtcp} (w : p.WF) : ∃ bs, marshalOne p = .ok b
       by_cases hz : pad4 (twccBody s m b c r f pl).length = 0
       · simp only [hz, if_true]; omega
       · simp only [hz, if_false, List.length_append, List.length_replicate, List.length_cons, List.length_nil]; omega
-    exact ⟨_, by simp only [marshalOne, twccEmit]; rw [if_neg (by omega), hf]; rfl⟩
+    exact ⟨_, by simp only [marshalOne, twccEmit]; rw [hf]; rfl⟩
 
 /-! ### exactly which logical packets the marshaller accepts -/
 
@@ -1013,7 +1128,7 @@ def Encodable : Rtcp → Prop
   | .fir _ rq => rq.length ≤ 32766
   | .nack _ _ lost => lost ≠ []
   | .remb _ _ ss => ss.length ≤ 255
-  | .twcc _ _ _ _ r _ pl => r.toNat < 16777216 ∧ pl.length ≤ 262124
+  | .twcc _ _ _ _ _ _ pl => pl.length ≤ 262124
 
 theorem emit_isOk {f p : Nat} {b : Bytes} : (∃ bs, emit f p b = .ok bs) ↔ fits b = true := by
   constructor
@@ -1095,10 +1210,7 @@ theorem marshalOne_ok_iff (p : Rtcp) : (∃ bs, marshalOne p = .ok bs) ↔ Encod
   | twcc s m b c r f pl =>
     simp only [marshalOne, Encodable]
     have hl : (twccBody s m b c r f pl).length = 16 + pl.length := by simp [twccBody]; omega
-    by_cases hr : r.toNat > 16777215
-    · rw [if_pos hr]; exact ⟨(fun ⟨_, h⟩ => by cases h), fun h => by omega⟩
-    · rw [if_neg hr]
-      have hpl : (twccPadded (twccBody s m b c r f pl)).length = 16 + pl.length + pad4 (16 + pl.length) := by
+    · have hpl : (twccPadded (twccBody s m b c r f pl)).length = 16 + pl.length + pad4 (16 + pl.length) := by
         have hlt := pad4_lt (16 + pl.length)
         unfold twccPadded
         rw [hl]
@@ -1113,8 +1225,8 @@ theorem marshalOne_ok_iff (p : Rtcp) : (∃ bs, marshalOne p = .ok bs) ↔ Encod
       · rintro ⟨bs, h⟩
         cases hf : fits (twccPadded (twccBody s m b c r f pl)) with
         | false => rw [hf] at h; simp at h
-        | true => rw [fits_iff_len, hpl] at hf; exact ⟨by omega, by omega⟩
-      · rintro ⟨_, hp⟩
+        | true => rw [fits_iff_len, hpl] at hf; omega
+      · intro hp
         have hf : fits (twccPadded (twccBody s m b c r f pl)) = true := by rw [fits_iff_len, hpl]; omega
         exact ⟨_, by rw [hf]; rfl⟩
 
